@@ -111,7 +111,9 @@ class C14(Base):
             else:
                 h = rng.choice(live) if live and rng.random() < 0.93 else rng.randrange(nh + 1)
                 ty, arg = rng.choice(pool)
-                ops.append("get:%d:%s:%s:%d:%s" % (h, ty, arg, rng.randrange(100), rng.choice("dk")))
+                # x = 666: the callback panics (single-thread memoizer only); the key must stay cached
+                x = 666 if (not conc and rng.random() < 0.12) else rng.randrange(100)
+                ops.append("get:%d:%s:%s:%d:%s" % (h, ty, arg, x, rng.choice("dk")))
         return ("cseq " if conc else "seq ") + ";".join(ops)
 
     def gen_failthen(self, rng, conc):
@@ -328,7 +330,7 @@ class C14(Base):
                 if key in m["cache"]:
                     if evs:
                         return where + "key is cached in m%d but construct ran again: %s" % (c, evs)
-                    exp = "ok:%d/%s/%s" % (m["cache"][key], kname, x)
+                    exp = "ok:CBPANIC" if x == "666" else "ok:%d/%s/%s" % (m["cache"][key], kname, x)
                     if res != exp:
                         return where + "callback result: expected %s got %s" % (exp, res)
                     continue
@@ -355,7 +357,7 @@ class C14(Base):
                         return where + "serial %d handed out twice" % s
                     used_serials.add(s)
                     m["cache"][key] = s
-                    exp = "ok:%d/%s/%s" % (s, kname, x)
+                    exp = "ok:CBPANIC" if x == "666" else "ok:%d/%s/%s" % (s, kname, x)
                     if res != exp:
                         return where + "callback result: expected %s got %s" % (exp, res)
             else:
